@@ -441,9 +441,17 @@ func runC06(r *Run, stratum string) *Violation {
 	c.si.Snapshot = c.newSnapshot
 	r.Net.Listen(simSourceAddr, c.src)
 	base := int64(g.Choose("base", 100000))
+	fresh := g.Choose("fresh-source", 8) == 7 // a source that was just started: its first snapshot is taken at replication offset 0
+	if fresh {
+		base = 0
+	}
 	c.src.Repl.BacklogBase = base
 	c.src.Repl.BacklogStart = base
-	c.grow(1 + int64(g.Choose("initlen", 800)))
+	if !fresh {
+		c.grow(1 + int64(g.Choose("initlen", 800)))
+	} else {
+		simrt.Probe("c06_fresh_source_offset_0")
+	}
 	c.stub = &outStub{src: c.si, cfgRunID: id1}
 	c.stub.related = func(oldID string, off int64, newID string) bool {
 		ho, hn := c.hist[oldID], c.hist[newID]
